@@ -46,6 +46,7 @@ def answerFp (fields : List String) : String :=
     match p.toNat?, n.toNat?, w.toNat?, Recipe.parse tree with
     | some p, some n, some w, some t =>
       let vs := (vals.splitOn " ").filterMap (fun (s : String) => s.toNat?)
+      if (t.spec .other).toOption.isNone then "CTOR-PANIC" else
       if t.len = 0 then "" else
       " ".intercalate ((runFp p n w (dir == "inv") t vs).map toString)
     | _, _, _, _ => "bad-op"
